@@ -208,6 +208,8 @@ class Mod:
         self.alias = {}
         self.funcs, self.classes = {}, {}
         self.assigned = {}     # module-level `name = <Name / Attribute chain>` (an alias of a function or module)
+        self.modgens = {}      # module-level `name = random.Random(...)` / `np.random.RandomState(...)`: generator objects that
+        #                        persist between calls (value: the constructor's dotted name; None when reassigned)
 
     def package(self):
         return self.name if self.is_pkg else self.name.rsplit(".", 1)[0]
@@ -322,6 +324,13 @@ class Translator:
                     elif isinstance(n, ast.Assign) and len(n.targets) == 1 and isinstance(n.targets[0], ast.Name) \
                             and isinstance(n.value, (ast.Name, ast.Attribute)) and _is_name_chain(n.value):
                         m.assigned[n.targets[0].id] = n.value if n.targets[0].id not in m.assigned else None   # reassigned: unknown
+                    elif isinstance(n, ast.Assign) and len(n.targets) == 1 and isinstance(n.targets[0], ast.Name) \
+                            and isinstance(n.value, ast.Call) and isinstance(n.value.func, (ast.Name, ast.Attribute)) \
+                            and _is_name_chain(n.value.func):
+                        ts = self.module_targets(m, n.value.func)
+                        if len(ts) == 1 and ts[0][0] == "dotted" and (ts[0][1] in GEN_CTORS or ts[0][1] in ENTROPY_CTORS):
+                            nm = n.targets[0].id
+                            m.modgens[nm] = ts[0][1] if nm not in m.modgens and ts[0][1] in GEN_CTORS else None
                     elif isinstance(n, ast.ClassDef):
                         m.classes[n.name] = n
                         self.classes.setdefault(n.name, []).append((m, n))
@@ -423,8 +432,10 @@ class Translator:
             effs = [x if x[0] != "callparam" else
                     ("draw", "unknown", f"{x[-1]}  (parameter `{x[1]}` is called: a callable supplied by the caller)")
                     for x in self.effects(f, {"seed"}, "top", ())]
+            maybe = sorted({x[1] for x in effs if x[0] == "maybeSeed"})
+            effs = [x for x in effs if x[0] != "maybeSeed"]
             out.append(dict(key=f.key, qual=f.qual, file=f.mod.rel, line=f.node.lineno, public=f.public and not f.cls,
-                            effs=effs, none_branch=f.none_branch))
+                            effs=effs, none_branch=f.none_branch, maybe_seed=maybe))
         # calls of functions whose `seed is None` branch has effects of its own are not modelled: be conservative
         nb = {e["key"] for e in out if e["none_branch"]}
         for e in out:
@@ -466,6 +477,7 @@ class _Walker:
         self.derived = set(derived)    # names whose value is a function of the seed
         self.seedp = set(derived)      # the seed parameter(s) themselves, for the `is not None` test
         self.gens = {}                 # variable -> source of the generator object it holds
+        self.modseeded = set()         # module-level generator objects re-seeded with the seed earlier in this body
         self.effs = []
         self.stack = stack
         self.sink = self.effs
@@ -649,6 +661,12 @@ class _Walker:
         val = s.value
         if val is None:
             return
+        if isinstance(val, ast.IfExp) and isinstance(s, (ast.Assign, ast.AnnAssign)):
+            live = self.seed_ifexp(val, ctx)           # `rng = RandomState(seed) if seed is not None else np.random`
+            if live is not None:
+                s2 = ast.copy_location(ast.Assign(targets=list(s.targets if isinstance(s, ast.Assign) else [s.target]),
+                                                  value=live), s)
+                return self.assign(s2, "seedcond" if ctx in ("top", "seedcond") else "other")
         targets = s.targets if isinstance(s, ast.Assign) else [s.target]
         single = targets[0].id if (isinstance(s, (ast.Assign, ast.AnnAssign)) and len(targets) == 1
                                    and isinstance(targets[0], ast.Name)) else None
@@ -824,11 +842,72 @@ class _Walker:
         if not body:
             return
         saved, self.sink = self.sink, []
+        state = self.save_state()           # what this branch assigns does not exist in a call with a concrete seed
         self.stmts(body, "other")
+        self.restore_state(state)
         found, self.sink = self.sink, saved
         if found:
             self.fn.none_branch = True
             self.tr.notes.append(f"{self.where(body[0])}: {len(found)} RNG effect(s) only when seed is None (not in the table)")
+
+    _STATE = ("derived", "seedp", "gens", "modseeded", "opaque", "alias", "local_funcs", "local_seen", "seed_dicts",
+              "fresh_dicts")
+
+    def save_state(self):
+        out = {}
+        for k in self._STATE:
+            v = getattr(self, k)
+            out[k] = {a: (list(b) if isinstance(b, list) else dict(b) if isinstance(b, dict) else b) for a, b in v.items()} \
+                if isinstance(v, dict) else set(v)
+        return out
+
+    def restore_state(self, state):
+        for k, v in state.items():
+            setattr(self, k, v)
+
+    def seed_ifexp(self, e, ctx):
+        """`a if seed is not None else b` (or `... if seed is None else ...`): the part that is evaluated in a call with a
+        concrete seed, after accounting for the other part like an `else:` branch of the statement form; None when the
+        test is not a test of the seed"""
+        k = _is_seed_test(e.test, self.seedp)
+        if k is None:
+            return None
+        live, dead = (e.body, e.orelse) if k == "notnone" else (e.orelse, e.body)
+        saved, self.sink = self.sink, []
+        state = self.save_state()
+        self.expr(dead, "other")
+        self.restore_state(state)
+        found, self.sink = self.sink, saved
+        if found:
+            self.fn.none_branch = True
+            self.tr.notes.append(f"{self.where(e)}: {len(found)} RNG effect(s) only when seed is None (not in the table)")
+        return live
+
+    def modgen_call(self, name, c, ctx):
+        """method call on a generator object created at module level (`_RNG = random.Random()`): it persists between calls
+        like the global generators do, so its draws are determined by the seed only after it has been re-seeded with the
+        seed in this body (then they are accounted like draws from a generator created from the seed: `local`)"""
+        meth = c.func.attr
+        if meth in ("getstate", "get_state"):
+            return
+        if self.mod.modgens.get(name) is None:
+            return self.unknown(c, f"module-level generator `{name}` is assigned more than once / from OS entropy only")
+        if meth == "seed":
+            if not self.seed_arg_ok(c):
+                self.modseeded.discard(name)
+                return self.unknown(c, f"`{name}.seed(...)` with an argument that is not a function of the seed")
+            if ctx == "other":
+                self.tr.notes.append(f"{self.where(c)}: seeding of module-level generator `{name}` ignored: not unconditional "
+                                     "and not directly under `if seed is not None:`")
+                return
+            self.modseeded.add(name)
+            return self.emit("seed", "local", c, extra=(ctx == "seedcond"))
+        if meth in ("setstate", "set_state"):
+            self.modseeded.discard(name)
+            return self.unknown(c, f"`{name}.{meth}(...)`: state of a module-level generator set from a value that is not followed")
+        if name in self.modseeded:
+            return self.emit("draw", "local", c)
+        self.unknown(c, f"module-level generator `{name}` is used before it is re-seeded with the seed in this body")
 
     # ---- nested functions
     def walk_local(self, name, ctx):
@@ -866,6 +945,10 @@ class _Walker:
         elif isinstance(e, ast.Lambda):
             self.expr(e.body, "other")
         elif isinstance(e, (ast.IfExp,)):
+            live = self.seed_ifexp(e, ctx)
+            if live is not None:
+                self.expr(live, "seedcond" if ctx in ("top", "seedcond") else "other")
+                return
             self.expr(e.test, ctx)
             self.expr(e.body, "other")
             self.expr(e.orelse, "other")
@@ -962,6 +1045,9 @@ class _Walker:
             self.tr.notes.append(f"{self.where(call)}: seeding call whose argument is not a function of the seed -> draw unknown")
         elif ctx == "other":
             self.tr.notes.append(f"{self.where(call)}: seeding of {src} ignored: not unconditional and not directly under `if seed is not None:`")
+            # not an effect of the model (the discipline gets no credit for it); kept aside so that the dynamic validation knows
+            # that this function MAY reseed the source (e.g. `if isinstance(seed, int): random.seed(seed)`)
+            self.emit("maybeSeed", src, call)
         else:
             self.emit("seed", src, call, extra=(ctx == "seedcond"))
 
@@ -979,6 +1065,9 @@ class _Walker:
             base = f.value
             if isinstance(base, ast.Name) and base.id in self.gens:
                 return self.emit("draw", self.gens[base.id], c)
+            if isinstance(base, ast.Name) and base.id in self.mod.modgens and base.id not in self.alias \
+                    and base.id not in self.opaque and base.id not in self.local_funcs:
+                return self.modgen_call(base.id, c, ctx)
             if isinstance(base, ast.Call) and self.ctor_kind(base) is not None:
                 return self.emit("draw", self.ctor_kind(base), c)
         for t in self.targets_of(f):
@@ -1042,6 +1131,11 @@ class _Walker:
         elif k in ("pkgclass", "pkgclassfam", "pkginstance"):
             fake = ast.copy_location(ast.Call(func=ast.Name(id="_", ctx=ast.Load()), args=[], keywords=[]), c)
             return self.apply(t, fake, "other")
+        elif k == "pkgresult":
+            fake = ast.copy_location(ast.Call(func=ast.Name(id="_", ctx=ast.Load()), args=[], keywords=[]), c)
+            for meth in self.tr.methods.get("__call__", []):
+                self.pkg_call(meth, fake, "other", method=True)
+            return
         if why:
             self.sink.append(("draw", "unknown", f"{txt}  <- {self.where(c)}"))
             self.tr.notes.append(f"{self.where(c)}: a helper inlined here calls its parameter ({txt}) -> draw unknown: {why}")
@@ -1212,6 +1306,15 @@ class _Walker:
         if isinstance(e, ast.Call) and isinstance(e.func, ast.Name) \
                 and any(t[0] in ("pkgclass", "pkgclassfam") for t in self.targets_of(e.func)):
             return [("pkginstance", t[1]) for t in self.targets_of(e.func) if t[0] in ("pkgclass", "pkgclassfam")]
+        if isinstance(e, ast.Call) and isinstance(e.func, (ast.Name, ast.Attribute)) and _is_name_chain(e.func):
+            # the result of a function of the package (`from_hyperedge_list(data, empty_dihypergraph(create_using))`): the call
+            # itself is walked where it is written (`expr`), and a function of the package can hand out an RNG callable only by
+            # mentioning one - which `reference` reports as `draw unknown` inside it.  Calling the result is therefore resolved
+            # like a method call on a receiver of unknown type: by name (`__call__`) over the classes of the package.
+            ts = self.targets_of(e.func)
+            if ts and all(t[0] == "pkgfn" or (t[0] == "dotted" and (t[1] == PKG or t[1].startswith(PKG + ".")) and
+                                              self.tr.pkg_funcs_dotted(t[1])) for t in ts):
+                return [("pkgresult", "")]
         return [OPAQUE]
 
     def pkg_call(self, callee, c, ctx, method=False, explicit_self=False):
